@@ -20,7 +20,7 @@ RULE = ('bodies: boundary strings (1..70 chars, made of dashes, with repeating p
 PYOPT = {'quick': 1, 'thorough': 1}     # one unit of every kind is also served by an interpreter started with -O (assert statements compiled out)
 REQUIRED = ['units_run_under_python_-O', 'cut_inside_delimiter', 'cut_inside_start_boundary', 'cut_between_delimiter_and_crlf', 'cut_inside_delimiter_crlf', 'cut_inside_headers_end',
             'cut_between_final_hyphens', 'cut_after_closing_delimiter', 'cut_inside_epilogue', 'cut_inside_lookalike', 'cut_inside_headers',
-            'cut_inside_data', 'prefix_cases', 'invariant_checks', 'request_body_sweeps', 'byte_at_a_time', 'regular_cuts', 'double_cuts', 'chunked_transfer_sweeps', 'short_transfer_chunk_beside_a_long_one']
+            'cut_inside_data', 'prefix_cases', 'invariant_checks', 'request_body_sweeps', 'byte_at_a_time', 'regular_cuts', 'double_cuts', 'chunked_transfer_sweeps', 'short_transfer_chunk_beside_a_long_one', 'bodies_with_over_a_thousand_parts']
 EXHAUSTIVE = {'quick': False, 'thorough': False,
               'quick_note': 'for each listed body: every prefix x every single cut and every pair of cuts is enumerated completely',
               'thorough_note': 'for each listed body: every prefix x every single cut and every pair of cuts is enumerated completely'}
@@ -370,6 +370,49 @@ def chunked_sweep(ctx, body, boundary, rng):
                 return
 
 
+def many_parts_unit(ctx, unit):
+    """Forms with very many parts (over a thousand): the result does not depend on the division either, whatever the count."""
+    import ombott
+    rng = ctx.rng
+    for count in unit['counts']:
+        boundary = 'ManyB' + 'x' * rng.randint(0, 20)
+        body = b''.join(f'--{boundary}\r\nContent-Disposition: form-data; name="f{i}"\r\n\r\nv{i}\r\n'.encode() for i in range(count)) + f'--{boundary}--\r\n'.encode()
+        n = len(body)
+        oracle = one_piece(boundary, body)
+        ctx.count('bodies_with_over_a_thousand_parts' if count > 1000 else 'bodies_with_many_parts')
+        if oracle[1] is not None or len(oracle[0]) < count:
+            ctx.violation('many-parts-body-not-parsed-in-one-piece', f'{count} parts in one piece: error {oracle[1]}, {len(oracle[0])} sections', {'unit': {'kind': 'note', 'parts': count}})
+            continue
+        divisions = [(n // 2,), (n // 3, 2 * n // 3), tuple(range(1000, n, 1000)), tuple(range(4096, n, 4096)), tuple(sorted(rng.sample(range(1, n), 5))),
+                     tuple(range(102400, n, 102400)) or (n - 7,)]
+        for cuts in divisions:
+            pts = [0] + list(cuts) + [n]
+            chunks = [body[a:b] for a, b in zip(pts, pts[1:])]
+            ctx.case(('many', count, len(cuts)), nontrivial=True)
+            try:
+                m = feed(ctx, boundary, chunks, check_invariants=False)
+                got = result_of(m)
+            except InvariantBroken as e:
+                ctx.violation('multipart-offset-invariant-broken', f'{count} parts, {len(cuts)} cuts: {e}', {'unit': {'kind': 'note', 'parts': count, 'cuts': list(cuts)[:10]}})
+                continue
+            if got != oracle:
+                ctx.violation('result-depends-on-read-division:many-parts', f'{count} parts, cuts {list(cuts)[:6]}...: one piece -> {len(oracle[0])} sections error {oracle[1]}; divided -> {len(got[0])} sections error {got[1]}',
+                              {'unit': {'kind': 'note', 'parts': count, 'cuts': list(cuts)[:10]}})
+        # and through the request object with the default buffer and a small one
+        for B in (102400, 4000):
+            env = make_environ('POST', '/', stream=RecStream(body, ('rand', rng)), content_length=n, content_type=f'multipart/form-data; boundary={boundary}')
+            rq = ombott.Request(env, config={'max_memfile_size': B})
+            try:
+                got = result_of(rq.body.ombott_markup)
+            except Exception as e:  # noqa
+                ctx.violation(f'request-body-raises-{type(e).__name__}:many-parts', f'{count} parts buffer {B}: {e!r}', {'unit': {'kind': 'note', 'parts': count, 'B': B}})
+                continue
+            if got != oracle:
+                ctx.violation('result-depends-on-read-division:many-parts', f'{count} parts through Request.body with buffer {B}: {len(got[0])} sections error {got[1]} instead of {len(oracle[0])}',
+                              {'unit': {'kind': 'note', 'parts': count, 'B': B}})
+    ctx.sample({'part_counts': unit['counts']})
+
+
 def random_unit(ctx, unit):
     """Larger bodies: single cuts + random multi-cuts."""
     rng = ctx.rng
@@ -401,10 +444,10 @@ def random_unit(ctx, unit):
 
 def plan(tier, seed):
     if tier == 'quick':
-        return [{'kind': 'body', 'bodies': 1, 'maxlen': 75, 'sub': i} for i in range(8)] + [{'kind': 'random', 'bodies': 60, 'sub': i} for i in range(4)]
+        return [{'kind': 'body', 'bodies': 1, 'maxlen': 75, 'sub': i} for i in range(8)] + [{'kind': 'random', 'bodies': 60, 'sub': i} for i in range(4)] + [{'kind': 'many', 'counts': [300, 1000, 1001, 1500]}]
     return ([{'kind': 'body', 'bodies': 2, 'maxlen': 110, 'sub': i} for i in range(32)]
             + [{'kind': 'body', 'bodies': 1, 'maxlen': 200, 'small': False, 'double': True, 'sub': i} for i in range(16)]
-            + [{'kind': 'random', 'bodies': 400, 'sub': i} for i in range(16)])
+            + [{'kind': 'random', 'bodies': 400, 'sub': i} for i in range(16)] + [{'kind': 'many', 'counts': [c]} for c in (255, 256, 257, 999, 1000, 1001, 1023, 1024, 1025, 2500, 5000, 10001)])
 
 
 def run_unit(ctx, unit):
@@ -413,6 +456,10 @@ def run_unit(ctx, unit):
         body_unit(ctx, unit)
     elif k == 'random':
         random_unit(ctx, unit)
+    elif k == 'many':
+        many_parts_unit(ctx, unit)
+    elif k == 'note':
+        print('  witness:', unit)
     else:
         body = unit['body'].encode('latin1')
         L = unit['L']
